@@ -1,7 +1,91 @@
-(* C10 - placeholder until Proofs/DelayFacts.v lands. *)
-From Coq Require Import QArith Qabs.
-From BB Require Import Base.Num.
-Theorem C10_round_robust : forall (n : Z) (f eps : Q),
-  Qabs f <= 2#5 -> Qabs eps <= 9#100 -> rnd (inject_Z n + f + eps) = n.
-Proof. exact rnd_robust. Qed.
-Print Assumptions C10_round_robust.
+(* C10 - channel delays shift exactly the addressed channel, identically in every path.
+   Only statements; every proof is `exact <lemma>` into Proofs/DelayFacts.v.
+   Partial: the waveform/count part is proved here; the marker clauses (segment-bound and raw-array markers
+   move, absolute markers stay) are covered by the correspondence check and the statement oracle only. *)
+From Coq Require Import String List ZArith QArith Qabs Bool Permutation.
+From BB Require Import Base.Names Base.Num Base.PyList Model.Types Model.Blueprint Model.Forge Model.Element
+  Model.PyVal Model.Sequence Model.Output Proofs.DelayFacts.
+Import ListNotations.
+Open Scope Q_scope.
+
+(* the delayed blueprint forges to: [waituntil pad of kd samples] ++ the undelayed blocks ++ [ramp(0,0) of kp
+   samples]; inner waituntil targets move with the waveform so every original segment keeps its count *)
+(* extra hypothesis length (names b) = length (funs b): insertSegment(-1) takes its position from the NAME list and
+   bp_wf says nothing about names; with names = [] and one segment the ramp(0,0) pad lands in FRONT of the
+   waveform (counterexample in Proofs/DelayFacts.v, delay_needs_names) *)
+Theorem C10_shift_blueprint : forall b SR d M f kd kp,
+  0 < SR -> bp_wf b -> length (names b) = length (funs b) -> forge_bp_with b SR (durs b) = Ok f ->
+  0 <= d -> d <= M ->
+  d * SR == inject_Z kd -> (kd = 0 \/ 2 <= kd)%Z ->
+  (M - d) * SR == inject_Z kp -> (kp = 0 \/ 2 <= kp)%Z ->
+  exists b' f', delay_bp b d M = Ok b' /\ forge_bp_with b' SR (durs b') = Ok f' /\
+    map bn (fblocks f') = (if (0 <? kd)%Z then [kd] else []) ++ map bn (fblocks f) ++ (if (0 <? kp)%Z then [kp] else []) /\
+    map bfn (fblocks f') = (if (0 <? kd)%Z then [Fwait] else []) ++ map bfn (fblocks f) ++ (if (0 <? kp)%Z then [Framp] else []) /\
+    fN f' = (kd + fN f + kp)%Z.
+Proof. exact shift_blueprint. Qed.
+
+(* the appended padding is ramp(0, 0): zeros; non-waituntil segments keep their stored arguments *)
+(* extra hypotheses on the list lengths, for the same reason as above: the end position comes from len(names) *)
+Theorem C10_padding_args : forall b d M b',
+  length (names b) = length (funs b) -> length (args b) = length (funs b) ->
+  delay_bp b d M = Ok b' ->
+  (0 < M - d -> exists pre, args b' = pre ++ [[VNum 0; VNum 0]] /\ funs b' = removelast (funs b') ++ [Framp]) /\
+  (forall k f a, nth_error (funs b) k = Some f -> fn_eqb f Fwait = false -> nth_error (args b) k = Some a ->
+     nth_error (args b') (if Qlt_le_dec 0 d then S k else k) = Some a).
+Proof. exact padding_args. Qed.
+
+(* raw arrays are padded by round(d*SR) zeros in front and round((M-d)*SR) behind, every stored array alike *)
+Theorem C10_shift_arrays : forall arrs d M SR n r,
+  alookup str_eqb n (delay_arrays arrs d M SR) = Some r ->
+  exists r0, alookup str_eqb n arrs = Some r0 /\ r = rle_pad (rnd (d * SR)) (rnd ((M - d) * SR)) r0 /\
+             rle_len r = (rnd (d * SR) + rle_len r0 + rnd ((M - d) * SR))%Z.
+Proof. exact shift_arrays. Qed.
+
+(* each delay is applied to the channel it was set for, whatever order the element lists its channels in *)
+Theorem C10_by_channel : forall dl e e' SRq,
+  apply_delays_elem dl e = Ok e' -> el_sr e = Ok (VNum SRq) ->
+  map fst (edata e') = map fst (edata e) /\
+  exists ds, mapM (fun c => match alookup chan_eqb c dl with Some q => Ok q | None => Err EKey end) (el_channels e) = Ok ds /\
+    forall i c ch, nth_error (edata e) i = Some (c, ch) ->
+      exists d ch', alookup chan_eqb c dl = Some d /\ nth_error ds i = Some d /\
+                    nth_error (edata e') i = Some (c, ch') /\ delayed_entry ch d (qmax ds) SRq ch'.
+Proof. exact delays_by_channel. Qed.
+
+(* forge() and the AWG/SEQX preparation treat a blueprint channel identically: same delayed blueprint, which
+   forges the same whether or not it went through addBluePrint's copy *)
+Theorem C10_paths_agree_blueprint : forall s e M c d ch b b',
+  el_lookup e c = Some ch -> ckind ch = KBp b -> delay_bp b d M = Ok b' -> bp_has_empty_list b' = false ->
+  prepare_chan s e M (c, d) = Ok (c, mkCh (KBp (bp_copy b')) (cflags ch)) /\
+  forall SR ds, forge_bp_with (bp_copy b') SR ds = forge_bp_with b' SR ds.
+Proof. exact paths_agree_blueprint. Qed.
+
+Theorem C10_paths_agree_arrays : forall s e M c d ch arrs asr SRq,
+  el_lookup e c = Some ch -> ckind ch = KArr arrs asr -> seq_SR s = VNum SRq ->
+  prepare_chan s e M (c, d) = Ok (c, mkCh (KArr (delay_arrays arrs d M SRq) asr) (cflags ch)).
+Proof. exact paths_agree_arrays. Qed.
+
+(* with all delays zero nothing is inserted and nothing is padded *)
+Theorem C10_zero_delay : forall b, bp_wf b -> delay_bp b 0 0 = Ok b.
+Proof. exact zero_delay_bp. Qed.
+
+Theorem C10_zero_delay_arrays : forall arrs SR n r,
+  alookup str_eqb n (delay_arrays arrs 0 0 SR) = Some r -> exists r0, alookup str_eqb n arrs = Some r0 /\ r = rle_pad 0 0 r0.
+Proof. exact zero_delay_arrays. Qed.
+
+(* non-vacuity: 3 samples of delay on a 2-segment blueprint with an inner waituntil, maximum delay 5 samples *)
+Example C10_example :
+  let b := mkBp [S_ "ramp"; S_ "waituntil"; S_ "ua"] [Framp; Fwait; Fua] [[VNum 0; VNum 1]; [VNum (10 # 100)]; [VNum 1]]
+                [VNum (4 # 100); VNone; VNum (3 # 100)] [(0,0); (0,0); (0,0)] [(0,0); (0,0); (0,0)] [] [] (VNum 100) in
+  bp_wf b /\
+  exists b' f', delay_bp b (3 # 100) (5 # 100) = Ok b' /\ forge_bp_with b' 100 (durs b') = Ok f' /\
+                map bn (fblocks f') = [3; 4; 6; 3; 2]%Z /\ map bfn (fblocks f') = [Fwait; Framp; Fwait; Fua; Framp].
+Proof. exact delay_example. Qed.
+
+Print Assumptions C10_shift_blueprint.
+Print Assumptions C10_padding_args.
+Print Assumptions C10_shift_arrays.
+Print Assumptions C10_by_channel.
+Print Assumptions C10_paths_agree_blueprint.
+Print Assumptions C10_paths_agree_arrays.
+Print Assumptions C10_zero_delay.
+Print Assumptions C10_zero_delay_arrays.
